@@ -15,6 +15,7 @@ RULE = (
     "string_token_to_bytes, lexed and parsed inside `set useragent ...;`, inside a data-transform list and (short "
     "strings) inside every string-bearing production of the grammar table; every escape sequence is decoded and "
     "compared with the documented value. non-trivial = the byte string / escape sequence is non-empty"
+    '. Added: every renderer-relevant pair/triple rendered and read back, upper-case hex digits, builder step / termination / keyword arguments, and conversion histories (text then bytes, bytes then text, malformed literal in between). '
 )
 ASSUMPTIONS = [
     "the Reconstructor is memoised by the harness (vmc/profile_env.py); a subset runs un-memoised",
